@@ -28,14 +28,22 @@ structure ChkRec where
   mod : Nat
   pos : Nat
 
+/-- a service worker goroutine back at the head of its restart loop (`late` = its function returned while the stop
+    flag was set) -/
+structure SwRec where
+  gid : Nat
+  mod : Nat
+  late : Bool
+
 structure DS where
   sys : Sys
   items : List ItemRec
   chks : List ChkRec
+  sws : List SwRec
   bad : Option String      -- sticky: first rejection
   ready : Bool
 
-def DS.init : DS := { sys := Sys.init 0 [], items := [], chks := [], bad := none, ready := false }
+def DS.init : DS := { sys := Sys.init 0 [], items := [], chks := [], sws := [], bad := none, ready := false }
 
 def parseNatList (s : String) : Option (List Nat) :=
   if s = "-" || s = "" then some [] else
@@ -90,6 +98,14 @@ def moveChk (g i pos : Nat) (pos' : Option Nat) : List ChkRec → List ChkRec
 /-- program order of one goroutine inside `checkIfStopComplete`: (position before, position after; `none` = left).
     0 pending, 1 fast path passed, 2 lock held, 3 flag read, 4 ctrl read, 5 workers read, 6 tasks read,
     7 microtasks read, 8 CAS won, 9 done (about to unlock). -/
+def takeSw (g i : Nat) : List SwRec → Option (Bool × List SwRec)
+  | [] => none
+  | r :: rs =>
+    if r.gid = g ∧ r.mod = i then some (r.late, rs)
+    else match takeSw g i rs with
+      | some (b, rs') => some (b, r :: rs')
+      | none => none
+
 def checkPos : Act → Option (Nat × Option Nat)
   | .cFast true => some (0, some 1) | .cFast false => some (0, none)
   | .cLock => some (1, some 2)
@@ -126,11 +142,42 @@ def doEvent (d : DS) (i : Nat) (act : String) (args : List String) (g : Nat) : E
       match takeItem g i kd d.items with
       | none => .error "dec: no matching inc by this goroutine"
       | some (isNew, items') =>
-        let S' ← stepSys (.dec kd (!isNew))
-        pure { d with sys := S', items := items', chks := { gid := g, mod := i, pos := 0 } :: d.chks }
+        -- a service worker leaving its restart loop
+        let (sys1, sws1) ← (match takeSw g i d.sws with
+          | none => (.ok (d.sys, d.sws) : Except String (Sys × List SwRec))
+          | some (late, sws') =>
+            match sstep d.sys (.mod i (.swExit late)) with
+            | some S1 => .ok (S1, sws')
+            | none => .error "dec: service worker exit not enabled")
+        match sstep sys1 (.mod i (.dec kd (!isNew))) with
+        | none => .error "dec: not enabled"
+        | some S' =>
+          pure { d with sys := S', items := items', sws := sws1, chks := { gid := g, mod := i, pos := 0 } :: d.chks }
   | "sFlag", _ =>
     let S' ← stepSys .sFlag
     pure { d with sys := S', items := d.items.map (fun r => if r.mod = i then { r with isNew := false } else r) }
+  | "swReturn", _ =>
+    let late := modFlag d.sys i == 1
+    let S' ← stepSys .swReturn
+    pure { d with sys := S', sws := { gid := g, mod := i, late := late } :: d.sws }
+  | "workEnter", c :: _ =>
+    match parseBool c with
+    | none => .error "workEnter: bad flag"
+    | some cb =>
+      -- the same goroutine enters its function again: a service worker re-run
+      match takeSw g i d.sws with
+      | none =>
+        let S' ← stepSys (.workEnter cb)
+        pure { d with sys := S' }
+      | some (late, sws') =>
+        if late then .error "workEnter: service worker re-run although its function returned while the module was stopping"
+        else
+          match sstep d.sys (.mod i .swRerun) with
+          | none => .error "workEnter: service worker re-run not enabled"
+          | some S1 =>
+            match sstep S1 (.mod i (.workEnter cb)) with
+            | none => .error "workEnter: not enabled"
+            | some S' => pure { d with sys := S', sws := sws' }
   | "ctrlUnset", _ =>
     let S' ← stepSys .ctrlUnset
     pure { d with sys := S', chks := { gid := g, mod := i, pos := 0 } :: d.chks }
